@@ -8,9 +8,18 @@ H_s2  == [tr |-> 102, sp |-> 202, fl |-> 1]     \* another trace (mismatched whe
 H_u2  == [tr |-> 102, sp |-> 202, fl |-> 0]
 H_i0  == [tr |-> 0, sp |-> 0, fl |-> 1]         \* invalid: no ids
 H_iS  == [tr |-> 0, sp |-> 201, fl |-> 1]       \* invalid: no trace id
+H_tS  == [tr |-> 101, sp |-> 0, fl |-> 1]       \* invalid: trace id only, sampled flag
+H_tU  == [tr |-> 101, sp |-> 0, fl |-> 0]       \* invalid: trace id only, unsampled flag
+H_iSU == [tr |-> 0, sp |-> 201, fl |-> 0]       \* invalid: span id only, unsampled flag
+H_i0U == [tr |-> 0, sp |-> 0, fl |-> 0]         \* invalid: no ids, unsampled flag
 MC_NoHeaders == {}
+MC_Forms == {"value", "ref", "option", "box", "arc", "dyn", "ambient"}
+\* invalid / partial headers; with the sampled-trace filter installed only those with the sampled flag
+MC_HeadersInvS == {H_s1, H_u2, H_i0, H_iS, H_tS}
+MC_HeadersInv == {H_s1, H_tS, H_tU, H_iSU, H_i0U}
+ASSUME PrintT(<<"FORMS", ToJson(CtxForms)>>)
 MC_Headers2 == {H_s1, H_u1}
 MC_Headers3 == {H_s1, H_u2, H_i0}
 MC_Headers4 == {H_s1, H_u1, H_s2, H_iS}
-MC_HeadersAll == {H_s1, H_u1, H_s1b, H_s2, H_u2, H_i0, H_iS}
+MC_HeadersAll == {H_s1, H_u1, H_s1b, H_s2, H_u2, H_i0, H_iS, H_tS}
 =============================================================================
